@@ -83,7 +83,13 @@ impl Explorer<'_> {
                 caps.push(format!("{}: wall-clock budget reached after completing depth {}", self.name, depth));
                 break;
             }
+            if ctx.vio_count.load(std::sync::atomic::Ordering::Relaxed) > 0 {
+                // breadth-first order: the violations found so far are shortest ones; deeper layers add nothing to the verdict
+                caps.push(format!("{}: stopped after depth {} because violations were found", self.name, depth));
+                break;
+            }
             let fam = format!("{}@depth{}", self.name, depth + 1);
+            let hard_cap = std::sync::atomic::AtomicBool::new(false);
             // parallel phase: every (state, op)
             let results: Vec<(TreeStats, Vec<(ExpState, u64)>)> = frontier
                 .par_chunks(4)
@@ -92,6 +98,10 @@ impl Explorer<'_> {
                     let mut out = vec![];
                     with_world(self.ext, |world| {
                         for es in chunk {
+                            if ctx.elapsed() > 4.0 * ctx.budget_s() {
+                                hard_cap.store(true, std::sync::atomic::Ordering::Relaxed);
+                                break;
+                            }
                             for (oi, op) in self.alphabet.iter().enumerate() {
                                 if let Some(en) = self.enabled {
                                     if !en(&es.s, oi) {
@@ -124,6 +134,10 @@ impl Explorer<'_> {
                         next.push(es);
                     }
                 }
+            }
+            if hard_cap.load(std::sync::atomic::Ordering::Relaxed) {
+                caps.push(format!("{}: hard wall-clock cap hit inside depth {}; that layer is incomplete", self.name, depth + 1));
+                break;
             }
             depth += 1;
             layers.push(next.len() as u64);
